@@ -28,6 +28,14 @@ class HarnessError(Exception):
     pass
 
 
+class Discard(Exception):
+    """Raised by a property when the generated case lies outside its input domain (counted, never reported)."""
+
+    def __init__(self, reason):
+        super().__init__(reason)
+        self.reason = reason
+
+
 @dataclass
 class Violation:
     bucket: str           # root-cause key (coarse part: cheap to compute)
@@ -140,6 +148,9 @@ def run_hypothesis_shard(mod, tier, seed, shard, nshards, examples, known_bucket
                 raise
             except RecursionError:
                 res["discards"]["recursion"] = res["discards"].get("recursion", 0) + 1
+                return
+            except Discard as d:
+                res["discards"][d.reason] = res["discards"].get(d.reason, 0) + 1
                 return
             if out.discard:
                 res["discards"][out.discard] = res["discards"].get(out.discard, 0) + 1
